@@ -130,6 +130,8 @@ pub enum FeOp {
 	RegisterNotif,
 	/// subscribe and keep the stream without ever reading it (its buffer fills up, then it lags)
 	SubscribeHold,
+	/// a subscribe that is only started once `after` environment events have fired
+	LateSubscribe,
 }
 
 #[derive(Clone, Debug, PartialEq)]
@@ -138,6 +140,8 @@ pub enum AnswerKind {
 	Err,
 	/// ok answers; a batch reply array is sent in reverse order
 	OkRev,
+	/// ok answers; every subscribe call is answered with the same subscription id "SX" (a server that reuses ids)
+	OkConstSub,
 }
 
 #[derive(Clone, Debug, PartialEq)]
@@ -208,8 +212,10 @@ pub fn answer_for(msg: &str, k: usize, kind: &AnswerKind) -> String {
 		let id = req.get("id").cloned().unwrap_or(Value::Null);
 		let is_sub = req.get("method").and_then(|m| m.as_str()) == Some("sub");
 		match kind {
-			AnswerKind::Ok | AnswerKind::OkRev => {
-				if is_sub {
+			AnswerKind::Ok | AnswerKind::OkRev | AnswerKind::OkConstSub => {
+				if is_sub && *kind == AnswerKind::OkConstSub {
+					json!({"jsonrpc":"2.0","id": id, "result": "SX"})
+				} else if is_sub {
 					json!({"jsonrpc":"2.0","id": id, "result": format!("S{k}")})
 				} else {
 					json!({"jsonrpc":"2.0","id": id, "result": tag})
@@ -322,7 +328,7 @@ pub fn setup(cfg: &CliScenarioCfg) -> CliState {
 				}
 				nfy.await;
 			}
-			if matches!(op, FeOp::LateCall | FeOp::LateBatch(_)) {
+			if matches!(op, FeOp::LateCall | FeOp::LateBatch(_) | FeOp::LateSubscribe) {
 				loop {
 					let nfy = env_notify.notified();
 					if log.lock().unwrap().env_fired >= late_after {
@@ -354,7 +360,7 @@ pub fn setup(cfg: &CliScenarioCfg) -> CliState {
 					let r: Result<BatchResponse<Value>, Error> = client.batch_request(b).await;
 					r.map(batch_summary).map_err(|e| err_str(&e))
 				}
-				FeOp::Subscribe | FeOp::SubscribeDrop | FeOp::RegisterNotif | FeOp::SubscribeHold => {
+				FeOp::Subscribe | FeOp::SubscribeDrop | FeOp::RegisterNotif | FeOp::SubscribeHold | FeOp::LateSubscribe => {
 					let r: Result<Subscription<Value>, Error> = if op == FeOp::RegisterNotif {
 						client.subscribe_to_method(&format!("evt{i}")).await
 					} else {
@@ -490,7 +496,7 @@ pub fn wire_index_of(sent: &[String], op: &FeOp, i: usize) -> Option<usize> {
 		let Ok(v) = serde_json::from_str::<Value>(m) else { return false };
 		match op {
 			FeOp::Batch(_) | FeOp::LateBatch(_) => v.as_array().map_or(false, |a| a.first().and_then(|e| e.get("method")).and_then(|x| x.as_str()) == Some(&format!("bm{i}"))),
-			FeOp::Subscribe | FeOp::SubscribeDrop | FeOp::SubscribeHold => v.get("method").and_then(|x| x.as_str()) == Some("sub") && v.get("params") == Some(&json!([i])),
+			FeOp::Subscribe | FeOp::SubscribeDrop | FeOp::SubscribeHold | FeOp::LateSubscribe => v.get("method").and_then(|x| x.as_str()) == Some("sub") && v.get("params") == Some(&json!([i])),
 			FeOp::Notif => v.get("method").and_then(|x| x.as_str()) == Some("note") && v.get("params") == Some(&json!([i])),
 			FeOp::Call | FeOp::LateCall | FeOp::AbandonCall => v.get("method").and_then(|x| x.as_str()) == Some("m") && v.get("params") == Some(&json!([i])),
 			FeOp::RegisterNotif => false,
